@@ -82,6 +82,12 @@ class Clock:
       return self.base + _dt.timedelta(milliseconds=16 * (self.n // 7))
     if self.kind == "coarse_long":     # advances every 40th reading
       return self.base + _dt.timedelta(milliseconds=16 * (self.n // 40))
+    if self.kind == "backwards":       # a clock that is set back: every reading is earlier than the last
+      return self.base - _dt.timedelta(milliseconds=250 * self.n)
+    if self.kind == "stepped_back":    # runs forward, but is set back two seconds every fifth reading
+      return self.base + _dt.timedelta(milliseconds=10 * self.n) - _dt.timedelta(seconds=2 * (self.n // 5))
+    if self.kind == "erratic":         # no order at all
+      return self.base + _dt.timedelta(milliseconds=(self.n * 7919) % 1000)
     return self.base + _dt.timedelta(microseconds=self.n)
 
 
@@ -253,8 +259,17 @@ class Run:
       if [a[0] for a in o.actlog] != [a[0] for a in m.actlog[nact:]]:
         return "desync"
       return o, steps
-    if k in ("next_rtc", "complete_circuit") and not m.d.q:
+    if k == "complete_circuit" and not m.d.q:
       return None
+    if k == "next_rtc" and not m.d.q:
+      # nothing is queued: no event is dispatched, the step's log is the queue reflection alone
+      o = self.real.apply(op)
+      if o.dispatched or o.log:
+        return "desync"
+      step = [self.reflection()]
+      self.exp_full.extend(step)
+      self.exp_live_spy.extend(step)
+      return o, [step]
     if k in ("is_in", "child_state"):
       self.real.apply(op)
       return None
